@@ -3,6 +3,8 @@ import Driver.C14Util
 import AslModel.Model.Isa.I4004
 import AslModel.Model.Isa.I8080
 import Driver.C14_Pic
+import Driver.C14_Avr
+import Driver.C14_Z80
 import Driver.C14_6502
 import Driver.C14_Msp430
 /-! Driver mode `c14`: one instruction statement per request line.
@@ -61,7 +63,9 @@ def targets : List (String Ã— (Nat â†’ Nat â†’ String â†’ List Int â†’ String â†
   ("8080", fun c _ mn as real => h8080 c mn as real, forms8080),
   ("pic16c8x", hPic, formsPic),
   ("msp430", hMsp430, formsMsp430),
-  ("6502", h6502, forms6502)
+  ("6502", h6502, forms6502),
+  ("z80", hZ80, formsZ80),
+  ("avr", hAvr, formsAvr)
 ]
 
 /-- mode `c14forms`: the SPEC's mnemonic list with operand form and minimum CPU, for the generator -/
